@@ -117,6 +117,25 @@ def r4(c):
     c.ob('single-write', len(ex.calls(WIRE_WRITE)) == 1, 'one transmission per transaction', '', loc_of(ex))
 
 
+def read_before(b, o, field_suffix):
+    """follow an operand back through plain copies of single-definition locals to the statement that read a field whose
+    projection ends with `field_suffix`; returns (block, stmt) or None"""
+    if o is None or o.get('k') not in ('copy', 'move'):
+        return None
+    cur = o['pl']
+    guard = 0
+    while guard < 10 and not cur['p']:
+        guard += 1
+        ds = b.whole_defs(cur['l'])
+        if len(ds) != 1 or ds[0][0] != 'assign' or ds[0][2]['rv']['r'] != 'use' or ds[0][2]['rv']['a'][0].get('k') not in ('copy', 'move'):
+            return None
+        src = ds[0][2]['rv']['a'][0]['pl']
+        if src['p'] and src['p'][-1].endswith(field_suffix):
+            return (ds[0][1], ds[0][2])
+        cur = src
+    return None
+
+
 @rule('C11', 'R11.5', 'the id counter advances by one and wraps after 65535')
 def r5(c):
     P = c.P
@@ -181,7 +200,10 @@ def r5(c):
             if in_wrap:
                 okr = okr and is_max(cs.args[0])
             else:
-                okr = okr and 'ret' in q.chain_names(b, cs.args[0]) and inc and not b.dominates(('b', inc[0][0]), ('b', [i for i, st in b.assigns() if st['pl']['l'] == b.names.get('ret', {'l': -1})['l']][0]) if 'ret' in b.names else ('b', 0))
+                # the value handed out was read from self.value before the store (followed back through plain copies)
+                rd = read_before(b, cs.args[0], ':value')
+                okr = okr and bool(inc) and rd is not None and ((rd[0] != inc[0][0] and b.dominates(('b', rd[0]), ('b', inc[0][0]))) or
+                                                                (rd[0] == inc[0][0] and b.blocks[rd[0]]['stmts'].index(rd[1]) < b.blocks[rd[0]]['stmts'].index(inc[0][1])))
         c.ob('returns-old', okr, 'next() returns the id before the advance (MAX on the wrapping arm): consecutive calls never return the same id', '%d TxId::new sites' % len(news), loc_of(b))
     d = P.fn('<rodbus::common::frame::TxId as core::default::Default>::default')
     n = one(d.calls('rodbus::common::frame::TxId::new'), 'TxId::new in default')
